@@ -1,9 +1,12 @@
 ---------------------------- MODULE MC_Valve ----------------------------
-(* exhaustive model of Valve: every history of target changes, switch readings, clock advances
-   and updates, for all configurations, up to a clock bound *)
+(* exhaustive model of Valve: every history of target changes, switch readings, clock advances,
+   reconfigurations and updates, for all configurations, up to a clock bound *)
 EXTENDS Valve
 CONSTANTS MovingTimes, MaxDt, MaxClock
 MCInit == \E m \in MovingTimes, s, c0, t0, o0, c1 \in BOOLEAN : VInit(m, s, c0, t0, o0, c1)
-MCSpec == MCInit /\ [][VNext(MaxDt)]_vvars
+MCNext == \/ VNext(MaxDt)
+          \/ \E m \in MovingTimes : SetMovingTime(m)
+          \/ \E s \in BOOLEAN : SetSafeState(s)
+MCSpec == MCInit /\ [][MCNext]_vvars
 Bound == clock <= MaxClock
 =============================================================================
